@@ -15,9 +15,9 @@ Open Scope string_scope.
    every map hanging off them (Capacity, Overhead, per-offering overrides), API objects — is untouched, with two
    exceptions: the pod-bookkeeping cell (the finding below) and the lazily computed, still unset
    allocatable-groups field of a provider instance type (sync.Once precompute; the computed maps are new cells). *)
-Theorem simulate_writes_fresh_only : forall roots slices types book h (calls : list sim_call) a,
-  wf h -> a < next h -> a <> book ->
-  let h' := simulate_all (genv roots slices types book) h calls in
+Theorem simulate_writes_fresh_only : forall roots slices types pods book h (calls : list sim_call) a,
+  wf h -> a < next h -> a <> book -> ~ In a pods ->
+  let h' := simulate_all (genv roots slices types pods book) h calls in
   (~ In a types -> cells h' a = cells h a) /\ same_except_l [cacheF] (cells h a) (cells h' a).
 Proof. exact simulate_writes_fresh_only_l. Qed.
 Print Assumptions simulate_writes_fresh_only.
@@ -26,27 +26,40 @@ Print Assumptions simulate_writes_fresh_only.
    SimulateScheduling -> Provisioner.GetPendingPods -> Cluster.MarkPodSchedulingDecisions records a scheduling
    decision for every pending pod that fails Provisioner.Validate. *)
 Theorem simulate_changes_nothing_refuted :
-  exists roots slices types book h calls a,
-    wf h /\ a < next h /\ ~ In a types /\
-    cells (simulate_all (genv roots slices types book) h calls) a <> cells h a.
+  exists roots slices types pods book h calls a,
+    wf h /\ a < next h /\ ~ In a types /\ ~ In a pods /\
+    cells (simulate_all (genv roots slices types pods book) h calls) a <> cells h a.
 Proof. exact simulate_changes_nothing_refuted_l. Qed.
 Print Assumptions simulate_changes_nothing_refuted.
 
+(* FINDING 2: a simulation also writes pod objects that are shared between simulations — the candidates'
+   reschedulable pods and the cached CapacityBuffer virtual pods: DefaultTopologySpreadInjector.Inject assigns the
+   default constraints in place.  (The in-place sort of preferred node-affinity terms by NewPodRequirements was
+   fixed in /repo, bad8fc38d; the model no longer has that step and the check treats it as a violation.) *)
+Theorem simulate_writes_shared_pods_refuted :
+  exists roots slices types pods book h calls a,
+    wf h /\ a < next h /\ a <> book /\
+    Forall (fun c => pending_marks (s_outcome c) (s_rejected c) = []) calls /\
+    cells (simulate_all (genv roots slices types pods book) h calls) a <> cells h a.
+Proof. exact simulate_writes_shared_pods_refuted_l. Qed.
+Print Assumptions simulate_writes_shared_pods_refuted.
+
 (* ... and holds in full when no simulation marks a pod: no pending pod fails validation, or the call returns
    before GetPendingPods. *)
-Theorem simulate_changes_nothing_partial : forall roots slices types book h (calls : list sim_call) a,
+Theorem simulate_changes_nothing_partial : forall roots slices types pods book h (calls : list sim_call) a,
   wf h -> a < next h ->
-  Forall (fun c => pending_marks (s_outcome c) (s_rejected c) = []) calls ->
-  let h' := simulate_all (genv roots slices types book) h calls in
+  Forall (fun c => pending_marks (s_outcome c) (s_rejected c) = [] /\
+                   forallb (fun o => negb (touches_shared_pod o)) (s_decisions c) = true) calls ->
+  let h' := simulate_all (genv roots slices types pods book) h calls in
   (~ In a types -> cells h' a = cells h a) /\ same_except_l [cacheF] (cells h a) (cells h' a).
 Proof. exact simulate_changes_nothing_partial_l. Qed.
 Print Assumptions simulate_changes_nothing_partial.
 
 (* The scheduler proper (ExistingNode.Add, instance-type filtering and in-place sorting, lazy precompute), any
    number of runs: it never writes a provider-owned map or a cluster-state cell. *)
-Theorem scheduling_writes_fresh_only : forall roots slices types book h (runs : list (list sop)) a,
-  wf h -> a < next h ->
-  let h' := run_all (genv roots slices types book) h (map sched_ops runs) in
+Theorem scheduling_writes_fresh_only : forall roots slices types pods book h (runs : list (list sop)) a,
+  wf h -> a < next h -> ~ In a pods ->
+  let h' := run_all (genv roots slices types pods book) h (map sched_ops runs) in
   (~ In a types -> cells h' a = cells h a) /\ same_except_l [cacheF] (cells h a) (cells h' a).
 Proof. exact scheduling_writes_fresh_only_l. Qed.
 Print Assumptions scheduling_writes_fresh_only.
@@ -54,9 +67,9 @@ Print Assumptions scheduling_writes_fresh_only.
 (* Provisioning passes and simulations in any mix and number: apart from the bookkeeping cell, a cell that existed
    before differs at most in nominatedUntil (only the cluster's own nodes) and in the unset cache field (only
    provider instance types). *)
-Theorem provision_writes_only_nomination_and_bookkeeping : forall roots slices types book h (runs : list (list sop)) a,
-  wf h -> a < next h -> a <> book ->
-  let h' := run_all (genv roots slices types book) h runs in
+Theorem provision_writes_only_nomination_and_bookkeeping : forall roots slices types pods book h (runs : list (list sop)) a,
+  wf h -> a < next h -> a <> book -> ~ In a pods ->
+  let h' := run_all (genv roots slices types pods book) h runs in
   (~ In a roots -> ~ In a types -> cells h' a = cells h a) /\ same_except_l [nomF; cacheF] (cells h a) (cells h' a).
 Proof. exact provision_writes_only_nomination_and_bookkeeping_l. Qed.
 Print Assumptions provision_writes_only_nomination_and_bookkeeping.
@@ -72,7 +85,7 @@ Print Assumptions any_deep_table_frames.
    cluster's own host-port map. *)
 Theorem shallow_copy_would_leak :
   exists h ops a, wf h /\ a < next h /\ forallb is_sim_op ops = true /\
-    cells (run (mkEnv shallow_table [7] [8] [10] 0) h ops) a <> cells h a.
+    cells (run (mkEnv shallow_table [7] [8] [10] [] 0) h ops) a <> cells h a.
 Proof. exact shallow_copy_would_leak_l. Qed.
 Print Assumptions shallow_copy_would_leak.
 
@@ -93,7 +106,7 @@ Print Assumptions sim_marks_only_rejected.
    and into new cells — and leaves every old cell as it was except the instance type's cache word; the provider's
    slice keeps its order although the new slice is sorted; the Capacity map is untouched. *)
 Example sim_writes_copies_only :
-  let e := genv [7] [8] [10] 0 in
+  let e := genv [7] [8] [10] [] 0 in
   let h' := simulate e demo_heap OOk [] [SAddPod 0 42%Z; SPrecompute 0; SNewClaim 0 [true; true; true]; SPrecompute 0] in
   map (cells h') [0; 1; 2; 3; 4; 5; 6; 7; 8; 9] = map (cells demo_heap) [0; 1; 2; 3; 4; 5; 6; 7; 8; 9] /\
   cells h' 11 = CLeaf [11%Z; 42%Z] /\                (* the copy's reserved map received the pod *)
@@ -104,7 +117,7 @@ Example sim_writes_copies_only :
 Proof. vm_compute. repeat split; reflexivity. Qed.
 
 Example prov_nominates_the_clusters_node :
-  let e := genv [7] [8] [10] 0 in
+  let e := genv [7] [8] [10] [] 0 in
   let h' := provision e demo_heap OOk [5%Z] [SAddPod 0 42%Z] [6%Z] [(0, 99%Z)] in
   cells h' 0 = CLeaf [5%Z; 6%Z] /\
   cells h' 7 = CObj "StateNode" [("hostPortUsage", VRef (Some 2)); ("volumeUsage", VRef (Some 6));
